@@ -2,7 +2,7 @@
 //! Elements: `u8` (key = value; on the wire the pair (k, 0)) and `Kv {k, v}` keyed by `k`.
 //! Case kinds (first integer), see coq/theories/Run/C19Run.v:
 //!  1 ordered-set op sequence   2 constructors   3 OneOrSet deserialise   4 OneOrSet try_from+appends
-//!  5 OneOrMany deserialise     6 OneOrMany from(vec)+pushes+from_iter     7 OneOrSet map (key collapse)
+//!  5 OneOrMany deserialise     6 OneOrMany from(vec)+pushes+from_iter     7 OneOrSet map (key collapse)   8 every constructor route of both wrappers on one list
 //! The element type is chosen by the sign convention: every case carries pairs; when all values
 //! are 0 and the last integer flag says so the u8 instantiation is used as well.
 use crate::common::*;
@@ -257,6 +257,31 @@ pub fn exec(case: &[i64]) -> Outcome {
       let o = Outcome::new(obs).class("oos-map");
       match why { Some(w) => o.fail(w), None => o }
     }
+    8 => {
+      // every constructor route of the wrappers on one list: OneOrSet::try_from(Vec), new_set(OrderedSet), TryFrom<OrderedSet>, (singleton) new_one, From<T>;
+      // OneOrMany::from(Vec), from_iter, (singleton) From<T>, One(x).  Each value: shape + elements; singletons bare; routes equal; own JSON reads back equal
+      let l = take_pairs(&mut v).unwrap();
+      let mut obs = Vec::new(); let mut why: Option<&str> = None;
+      let set = OrderedSet::try_from(l.clone()).ok();
+      let mut oos: Vec<Option<OneOrSet<Kv>>> = vec![OneOrSet::try_from(l.clone()).ok(), set.clone().and_then(|s| OneOrSet::new_set(s).ok()), set.clone().and_then(|s| OneOrSet::try_from(s).ok())];
+      if l.len() == 1 { oos.push(Some(OneOrSet::new_one(l[0].clone()))); oos.push(Some(OneOrSet::from(l[0].clone()))); }
+      for x in &oos { match x { None => { obs.push(0); if !l.is_empty() && uniq(&l) { why = Some("a OneOrSet constructor rejected a valid list"); } }
+        Some(x) => { let ser = serde_json::to_value(x).unwrap(); obs.push(if ser.is_array() { 2 } else { 1 }); put_pairs(&mut obs, x.as_slice());
+          if l.is_empty() || !uniq(&l) { why = Some("a OneOrSet constructor accepted an empty / duplicate list"); }
+          if x.len() == 1 && ser.is_array() { why = Some("singleton OneOrSet built through a constructor is not serialised as a bare value"); }
+          if !matches!(serde_json::from_value::<OneOrSet<Kv>>(ser), Ok(b) if b == *x) { why = Some("OneOrSet does not deserialise from its own JSON to an equal value"); }
+          if x.as_slice() != l.as_slice() { why = Some("OneOrSet constructor lost or reordered elements"); } } } }
+      for a in oos.iter().flatten() { for b in oos.iter().flatten() { if a != b { why = Some("two OneOrSet constructors give unequal values for one list"); } } }
+      let mut oom: Vec<OneOrMany<Kv>> = vec![OneOrMany::from(l.clone()), l.iter().cloned().collect()];
+      if l.len() == 1 { oom.push(OneOrMany::from(l[0].clone())); oom.push(OneOrMany::One(l[0].clone())); }
+      for x in &oom { let ser = serde_json::to_value(x).unwrap(); obs.push(if matches!(x, OneOrMany::One(_)) { 1 } else { 2 }); put_pairs(&mut obs, x.as_slice());
+        if x.len() == 1 && ser.is_array() { why = Some("singleton OneOrMany built through a constructor is not serialised as a bare value"); }
+        if !matches!(serde_json::from_value::<OneOrMany<Kv>>(ser), Ok(b) if b == *x) { why = Some("OneOrMany does not deserialise from its own JSON to an equal value"); }
+        if x.as_slice() != l.as_slice() { why = Some("OneOrMany constructor lost or reordered elements"); } }
+      for a in &oom { for b in &oom { if a != b { why = Some("two OneOrMany constructors give unequal values for one list"); } } }
+      let o = Outcome::new(obs).class("wrapper-routes");
+      match why { Some(w) => o.fail(w), None => o }
+    }
     _ => Outcome::new(vec![-998]).fail("bad case kind"),
   }
 }
@@ -312,6 +337,7 @@ pub fn gen(rng: &mut Rng, thorough: bool, sink: &mut Sink) {
     let mut c = vec![3, 1]; c.extend(&p); sink.case(c, "oos-deser-array");
     let mut c = vec![5, 1]; c.extend(&p); sink.case(c, "oom-deser-array");
     for m in [0, 2] { let mut c = vec![7, m]; c.extend(&p); sink.case(c, "oos-map"); }
+    let mut c = vec![8]; c.extend(&p); sink.case(c, "wrapper-routes");
   }
   for &(k, v) in &univ { sink.case(vec![3, 0, k, v], "oos-deser-scalar"); sink.case(vec![5, 0, k, v], "oom-deser-scalar"); }
   // wrappers: constructor list x appended/pushed elements (up to 2 / 3)
